@@ -34,14 +34,34 @@ func (p *capPlanner) WithLocationPriorities(pr []string) gateway.QueryPlanner {
 	return p
 }
 
+// fedLogger records the executor's "Spawn <realised insertion point>" lines
+type fedLogger struct{ f *Fed }
+
+func (l fedLogger) Debug(args ...interface{}) {}
+func (l fedLogger) Info(args ...interface{}) {
+	if len(args) == 2 {
+		if s, ok := args[0].(string); ok && strings.HasPrefix(s, "Spawn") {
+			if ip, ok := args[1].([]string); ok {
+				l.f.Ctl.mu.Lock()
+				l.f.Spawns = append(l.f.Spawns, strings.Join(ip, "/"))
+				l.f.Ctl.mu.Unlock()
+			}
+		}
+	}
+}
+func (l fedLogger) Warn(args ...interface{})                              {}
+func (l fedLogger) WithFields(fields gateway.LoggerFields) gateway.Logger { return l }
+func (l fedLogger) QueryPlanStep(step *gateway.QueryPlanStep)             {}
+
 type Fed struct {
-	Spec  *FedSpec
-	GW    *gateway.Gateway
-	Cap   *capPlanner
-	Store *Store
-	Ctl   *Controller
-	Svcs  map[string]*Service
-	SDL   map[string]string
+	Spawns []string
+	Spec   *FedSpec
+	GW     *gateway.Gateway
+	Cap    *capPlanner
+	Store  *Store
+	Ctl    *Controller
+	Svcs   map[string]*Service
+	SDL    map[string]string
 }
 
 // NewFed builds the gateway over in-process services. optOrder permutes the order in which the
@@ -63,7 +83,7 @@ func NewFed(spec *FedSpec, st *Store, r *rand.Rand, extra ...gateway.Option) (*F
 		return f.Svcs[url]
 	})
 	f.Cap = &capPlanner{inner: &gateway.MinQueriesPlanner{}}
-	opts := []gateway.Option{gateway.WithPlanner(f.Cap), gateway.WithQueryerFactory(&qf), gateway.WithLogger(quietLogger{})}
+	opts := []gateway.Option{gateway.WithPlanner(f.Cap), gateway.WithQueryerFactory(&qf), gateway.WithLogger(fedLogger{f})}
 	if spec.HasPrio {
 		opts = append(opts, gateway.WithLocationPriorities(spec.Priorities))
 	}
